@@ -47,16 +47,16 @@ E == TLog[l]
 Fresh == /\ subs' = {} /\ n' = 0 /\ last' = [a |-> "init"]
          /\ msgs' = <<>> /\ inq' = [c \in Clients |-> <<>>] /\ pend' = [c \in Clients |-> <<>>] /\ got' = [c \in Clients |-> <<>>]
          /\ ackd' = [c \in Clients |-> {}] /\ resends' = 0 /\ up' = <<>> /\ piped' = {} /\ upack' = <<>> /\ step' = [a |-> "init"]
-         /\ infl' = [c \in Clients |-> [p \in PidsUp |-> 0]] /\ byst' = {}
+         /\ infl' = [c \in Clients |-> [p \in PidsUp |-> 0]] /\ byst' = {} /\ rl' = [c \in Clients |-> 0]
          /\ owed' = {} /\ mayget' = {} /\ waived' = {} /\ pidm' = {} /\ viol' = {} /\ upacked' = {}
 
-Keep == UNCHANGED <<inq, pend, resends, step, infl>>
+Keep == UNCHANGED <<inq, pend, resends, step, infl, rl>>
 
 TReset == IsEvent("reset") /\ Fresh
 
 TSub == /\ IsEvent("sub") /\ Subscribe(E.c, <<E.f>>, <<E.q>>, {1}) /\ last'.ok
         /\ Keep /\ UNCHANGED <<msgs, got, ackd, up, piped, upack, byst, owed, mayget, waived, pidm, viol, upacked>>
-TUnsub == /\ IsEvent("unsub") /\ Unsubscribe(E.c, <<E.f>>)
+TUnsub == /\ IsEvent("unsub") /\ Unsubscribe(E.c, <<E.f>>, {1})
           /\ Keep /\ UNCHANGED <<msgs, got, ackd, up, piped, upack, byst, owed, mayget, waived, pidm, viol, upacked>>
 
 (* number of copies owed to c that c has not read yet: a lower bound of its queue length *)
@@ -100,7 +100,7 @@ TCPuback == /\ IsEvent("cpuback")
             /\ E.k \in 1..Len(up) /\ E.k \notin upacked
             /\ up[E.k].c = E.c /\ up[E.k].q = 1 /\ up[E.k].pid = E.pid
             /\ upacked' = upacked \cup {E.k}
-            /\ upack' = Append(upack, [c |-> E.c, pid |-> E.pid])
+            /\ upack' = Append(upack, [c |-> E.c, pid |-> E.pid, k |-> E.k])
             /\ Keep /\ UNCHANGED <<vars, msgs, got, ackd, up, piped, byst, owed, mayget, waived, pidm, viol>>
 TByst == /\ IsEvent("byst") /\ byst' = IF E.up THEN byst \cup {E.x} ELSE byst \ {E.x}
          /\ Keep /\ UNCHANGED <<vars, msgs, got, ackd, up, piped, upack, owed, mayget, waived, pidm, viol, upacked>>
@@ -131,7 +131,7 @@ TAbort == IsEvent("abort") /\ viol # {} /\ UNCHANGED <<dvars, owed, mayget, waiv
 
 TNext == TMiss \/ TStuck \/ TReset \/ TSub \/ TUnsub \/ TPub \/ TRecv \/ TAck \/ TCPub \/ TPipe \/ TCPuback \/ TByst \/ TSettle \/ TAbort
 TInit == /\ l = 1 /\ owed = {} /\ mayget = {} /\ waived = {} /\ pidm = {} /\ viol = {} /\ upacked = {}
-         /\ infl = [c \in Clients |-> [p \in PidsUp |-> 0]] /\ byst = {}
+         /\ infl = [c \in Clients |-> [p \in PidsUp |-> 0]] /\ byst = {} /\ rl = [c \in Clients |-> 0]
          /\ subs = {} /\ n = 0 /\ last = [a |-> "init"]
          /\ msgs = <<>> /\ inq = [c \in Clients |-> <<>>] /\ pend = [c \in Clients |-> <<>>] /\ got = [c \in Clients |-> <<>>]
          /\ ackd = [c \in Clients |-> {}] /\ resends = 0 /\ up = <<>> /\ piped = {} /\ upack = <<>> /\ step = [a |-> "init"]
